@@ -23,7 +23,18 @@ SK = "vgi_rpc/http/server/_sticky.py"
 
 # ------------------------------------------------------------------------------------------ calls
 def resolves_to(ctx: Ctx, fi: FunctionInfo, call: ast.Call, *fqs: str) -> bool:
-    """Does the call resolve (without the name heuristic) to one of the given functions?"""
+    """Does the call resolve (without the name heuristic) to one of the given functions?
+    Cheap pre-filter: the callee's last name component must equal the target's name (or its class
+    name for constructors) — local aliases of the anchored helpers are outside the idiom family."""
+    la = last_attr(call)
+    want = False
+    for fq in fqs:
+        qn = fq.rpartition(":")[2].split(".")
+        if la == qn[-1] or (qn[-1] in ("__init__", "__post_init__") and len(qn) >= 2 and la == qn[-2]):
+            want = True
+            break
+    if not want:
+        return False
     return any(t.fq in fqs for t in ctx.res.resolve(fi, call, heuristic=False, count=False))
 
 
@@ -173,25 +184,38 @@ def derives_from(fi: FunctionInfo, e: ast.expr, roots: set[str], depth: int = 6)
     return False
 
 
+_bind_cache: dict[int, dict[str, list[ast.expr]]] = {}
+_pins: list[ast.AST] = []  # keeps cached function nodes alive so that id() keys are never reused
+
+
 def binding_values(fi: FunctionInfo, name: str) -> list[ast.expr]:
     """Right-hand sides of every binding of ``name`` (plain, unpacking, with-as, for-target, walrus)."""
-    out: list[ast.expr] = []
-    for n in walk_scope(fi.node):
-        tgts, val = _targets_of(n)
-        if val is not None:
-            if any(isinstance(x, ast.Name) and x.id == name for t in tgts for x in ast.walk(t)):
-                out.append(val)
-        elif isinstance(n, ast.AugAssign):
-            if isinstance(n.target, ast.Name) and n.target.id == name:
-                out.append(n.value)
-        elif isinstance(n, (ast.For, ast.AsyncFor)):
-            if any(isinstance(x, ast.Name) and x.id == name for x in ast.walk(n.target)):
-                out.append(n.iter)
-        elif isinstance(n, (ast.With, ast.AsyncWith)):
-            for it in n.items:
-                if it.optional_vars is not None and any(isinstance(x, ast.Name) and x.id == name for x in ast.walk(it.optional_vars)):
-                    out.append(it.context_expr)
-    return out
+    idx = _bind_cache.get(id(fi.node))
+    if idx is None:
+        idx = {}
+        _bind_cache[id(fi.node)] = idx
+        _pins.append(fi.node)
+
+        def names(t: ast.AST) -> set[str]:
+            return {x.id for x in ast.walk(t) if isinstance(x, ast.Name)}
+
+        for n in walk_scope(fi.node):
+            tgts, val = _targets_of(n)
+            if val is not None:
+                for nm in {x for t in tgts for x in names(t)}:
+                    idx.setdefault(nm, []).append(val)
+            elif isinstance(n, ast.AugAssign):
+                if isinstance(n.target, ast.Name):
+                    idx.setdefault(n.target.id, []).append(n.value)
+            elif isinstance(n, (ast.For, ast.AsyncFor)):
+                for nm in names(n.target):
+                    idx.setdefault(nm, []).append(n.iter)
+            elif isinstance(n, (ast.With, ast.AsyncWith)):
+                for it in n.items:
+                    if it.optional_vars is not None:
+                        for nm in names(it.optional_vars):
+                            idx.setdefault(nm, []).append(it.context_expr)
+    return list(idx.get(name, []))
 
 
 # ------------------------------------------------------------------------------------------ byte-string algebra
@@ -229,6 +253,17 @@ def flatten_concat(ctx: Ctx, fi: FunctionInfo, e: ast.expr, depth: int = 8) -> l
         c = ctx.repo.const_str(fi.module, x) if not isinstance(x, ast.Name) or x.id not in _locals(fi) else None
         if c is not None:
             add(Atom(c, x))
+            return
+        if isinstance(x, ast.Call) and isinstance(x.func, ast.Attribute) and x.func.attr == "encode" and not x.keywords and isinstance(x.func.value, (ast.JoinedStr, ast.BinOp)) and (
+            not x.args or (isinstance(x.args[0], ast.Constant) and str(x.args[0].value).lower().replace("-", "") == "utf8")
+        ):
+            # (f"{a}\0{b}").encode(): flatten the text and encode the constant pieces (UTF-8 is a homomorphism on concatenation)
+            inner = flatten_concat(ctx, fi, x.func.value, d)
+            for a in inner:
+                if a.is_const:
+                    add(Atom(a.const.encode() if isinstance(a.const, str) else a.const, a.expr))
+                else:
+                    add(Atom(None, ast.Call(func=ast.Attribute(value=a.expr, attr="encode", ctx=ast.Load()), args=[], keywords=[])))
             return
         if isinstance(x, ast.JoinedStr):
             for v in x.values:
@@ -391,12 +426,24 @@ def module_functions(ctx: Ctx, relpath: str) -> list[FunctionInfo]:
     return list(ctx.repo.module(relpath).functions.values())
 
 
+_calls_cache: dict[int, list[ast.Call]] = {}
+
+
+def calls_cached(fi: FunctionInfo) -> list[ast.Call]:
+    c = _calls_cache.get(id(fi.node))
+    if c is None:
+        c = calls(fi)
+        _calls_cache[id(fi.node)] = c
+        _pins.append(fi.node)
+    return c
+
+
 def call_sites_of(ctx: Ctx, target: FunctionInfo, relpaths: Iterable[str]) -> list[tuple[FunctionInfo, ast.Call]]:
     """Call sites of target inside the given modules (no name heuristic)."""
     out = []
     for rp in relpaths:
         for fi in module_functions(ctx, rp):
-            for c in calls(fi):
+            for c in calls_cached(fi):
                 if resolves_to(ctx, fi, c, target.fq):
                     out.append((fi, c))
     out.sort(key=lambda t: (t[0].fq, t[1].lineno))
